@@ -93,9 +93,17 @@ def build_lib(variant='asan'):
     if bad:
         log('BROKEN: direct allocator call outside base.c (allocation shim would miss it):\n' + '\n'.join(bad[:5]))
         sys.exit(2)
-    # drop older variants of this kind (disk space)
-    for old in glob.glob(os.path.join(BUILD, 'lib', variant + '-*')):
-        shutil.rmtree(old, ignore_errors=True)
+    # drop stale variants of this kind (disk space); variants touched in the last hour may belong to a concurrent run
+    olds = sorted(glob.glob(os.path.join(BUILD, 'lib', variant + '-*')), key=lambda x: os.path.getmtime(x) if os.path.exists(x) else 0)
+    for old in olds[:-3]:
+        try:
+            if time.time() - os.path.getmtime(old) > 600:
+                shutil.rmtree(old, ignore_errors=True)
+        except OSError:
+            pass
+    final = d
+    d = final + '.tmp%d' % os.getpid()          # private build directory, published by an atomic rename
+    shutil.rmtree(d, ignore_errors=True)
     os.makedirs(d, exist_ok=True)
     cmds = []
     for c in cs:
@@ -108,11 +116,17 @@ def build_lib(variant='asan'):
     fails = par(cmds)
     if fails:
         log('BUILD FAILED (libksi):\n' + fails[0][1][-3000:])
+        shutil.rmtree(d, ignore_errors=True)
         sys.exit(2)
     r = sh(['ar', 'rcs', os.path.join(d, 'libksi.a')] + sorted(glob.glob(os.path.join(d, '*.o'))))
     if r.returncode:
-        log(r.stdout); sys.exit(2)
-    open(stamp, 'w').write(key)
+        log(r.stdout); shutil.rmtree(d, ignore_errors=True); sys.exit(2)
+    open(os.path.join(d, 'ok'), 'w').write(key)
+    try:
+        os.rename(d, final)
+    except OSError:                              # another run published the same variant first
+        shutil.rmtree(d, ignore_errors=True)
+    d = final
     log('[build] libksi %s objects in %.1fs -> %s' % (variant, time.time() - t0, d))
     return d, key
 
@@ -145,7 +159,7 @@ def build_fw():
     hdrs = sorted(glob.glob(os.path.join(ROOT, 'engine', '*.hpp')) + glob.glob(os.path.join(ROOT, 'ref', '*.hpp')) +
                   glob.glob(os.path.join(ROOT, 'sim', '*.hpp')) + glob.glob(os.path.join(ROOT, 'sim', '*.h')))
     hk = sha_files(hdrs)
-    cmds, objs = [], {}
+    cmds, objs, pending = [], {}, []
     for name, (src, extra) in fw_units().items():
         sp = os.path.join(ROOT, src)
         k = sha_files([sp], hk + ' '.join(COMMON + extra))
@@ -153,15 +167,23 @@ def build_fw():
         objs[name] = o
         if not os.path.exists(o):
             for old in glob.glob(os.path.join(d, name + '-*.o')):
-                os.remove(old)
+                try:
+                    if time.time() - os.path.getmtime(old) > 600:
+                        os.remove(old)
+                except OSError:
+                    pass
+            tmp = o + '.tmp%d' % os.getpid()
+            pending.append((tmp, o))
             cmds.append([CXX, '-std=gnu++17', '-Wno-varargs'] + COMMON + extra + ['-I' + os.path.join(ROOT, 'engine'), '-I' + os.path.join(ROOT, 'ref'),
-                         '-I' + os.path.join(ROOT, 'sim'), '-c', sp, '-o', o])
+                         '-I' + os.path.join(ROOT, 'sim'), '-c', sp, '-o', tmp])
     if cmds:
         t0 = time.time()
         fails = par(cmds)
         if fails:
             log('BUILD FAILED (framework):\n' + ' '.join(fails[0][0]) + '\n' + fails[0][1][-4000:])
             sys.exit(2)
+        for tmp, o in pending:
+            os.replace(tmp, o)
         log('[build] framework: %d units in %.1fs' % (len(cmds), time.time() - t0))
     return objs
 
@@ -181,7 +203,13 @@ def build_harness(pid, fuzz=False):
         return out
     for old in glob.glob(os.path.join(bd, pid + ('.fuzz' if fuzz else '') + '-*')):
         if fuzz or '.fuzz-' not in old:
-            os.remove(old)
+            try:
+                if time.time() - os.path.getmtime(old) > 600:
+                    os.remove(old)
+            except OSError:
+                pass
+    final_out = out
+    out = final_out + '.tmp%d' % os.getpid()
     t0 = time.time()
     inc = include_flags() + ['-I' + os.path.join(ROOT, x) for x in ('engine', 'ref', 'sim', 'harness')]
     objs = []
@@ -223,6 +251,8 @@ def build_harness(pid, fuzz=False):
     if r.returncode:
         log('LINK FAILED (harness %s):\n%s' % (pid, r.stdout[-6000:]))
         sys.exit(2)
+    os.replace(out, final_out)
+    out = final_out
     log('[build] harness %s%s in %.1fs' % (pid, ' (fuzz)' if fuzz else '', time.time() - t0))
     return out
 
